@@ -336,7 +336,62 @@ def oracle(case):
     return Info(nt=nt, classes=classes, sample={"handlers": case["handlers"], "names": case["names"], "ignore": case["call_ignore"], "value": repr(v)[:200], "dump": repr(got)[:200]})
 
 
+# -- one Config object whose handler table is edited between dumps
+
+
+@st.composite
+def history_cases(draw):
+    classes = draw(G.class_tables(kinds=("dict", "dict", "slots")))
+    names = ("_serialize", "_ignore")
+    steps = []
+    for _ in range(draw(st.integers(2, 5))):
+        handlers = draw(st.lists(st.sampled_from(HANDLED), unique=True, max_size=3))
+        how = draw(st.sampled_from(["in-place", "in-place", "new-dict"]))
+        value = draw_c20_value(draw, classes, 0, "top", names)
+        steps.append({"handlers": handlers, "how": how, "value": value})
+    return {"classes": classes, "names": names, "steps": steps}
+
+
+def oracle_history(case):
+    from jsonrpclib import jsonclass as JC
+    from jsonrpclib.config import Config
+
+    cfg = Config()
+    pseudo = {"classes": case["classes"], "names": case["names"]}
+    b = C20Builder(pseudo, cfg)
+    same_size_edit = False
+    prev = None
+    for i, step in enumerate(case["steps"]):
+        table = {HANDLER_TYPES[h]: marker(h) for h in step["handlers"]}
+        if step["how"] == "new-dict":
+            cfg.serialize_handlers = table
+        else:
+            for k in list(cfg.serialize_handlers):
+                if k not in table:
+                    del cfg.serialize_handlers[k]
+            cfg.serialize_handlers.update(table)
+        if prev is not None and len(prev) == len(step["handlers"]) and set(prev) != set(step["handlers"]):
+            same_size_edit = True
+        prev = step["handlers"]
+        v = b.build(step["value"])
+        exp = reference(v, cfg, [])
+        try:
+            got = JC.dump(v, config=cfg)
+        except Exception as ex:
+            fail("C20/dump-raised:%s" % type(ex).__name__, "step %d: dump raised %s: %s" % (i, type(ex).__name__, str(ex)[:200]))
+        r = strict_same(exp, got)
+        if r:
+            fail("C20/config-history", "step %d (handlers %r after %r): dump output differs from the reference traversal at %s" % (
+                i, step["handlers"], case["steps"][i - 1]["handlers"] if i else None, r[:300]))
+    return Info(nt=same_size_edit, classes=["config-history", "steps:%d" % len(case["steps"])] + (["same-size-table-edit"] if same_size_edit else []),
+                sample={"handler-tables": [s_["handlers"] for s_ in case["steps"]]})
+
+
 SUBS = [
+    Sub("config-history", oracle_history, strategy=lambda tier: history_cases(),
+        budget={"quick": 4000, "thorough": 60000}, shards={"quick": 8, "thorough": 16},
+        time_cap={"quick": 100, "thorough": 1500},
+        what="one Config whose handler table is edited (in place or replaced) between dumps"),
     Sub("customisation", oracle, strategy=lambda tier: cases(),
         budget={"quick": 16000, "thorough": 250000}, shards={"quick": 16, "thorough": 16},
         time_cap={"quick": 100, "thorough": 1500},
